@@ -1,22 +1,35 @@
 package props
 
 import (
+	"crypto/sha256"
+	"encoding/hex"
 	"fmt"
+	"math/big"
+	"strconv"
+	"strings"
 	"testing"
 	"time"
 
 	sdkmath "cosmossdk.io/math"
+	abci "github.com/cometbft/cometbft/abci/types"
 	sdk "github.com/cosmos/cosmos-sdk/types"
+	banktypes "github.com/cosmos/cosmos-sdk/x/bank/types"
 	distrtypes "github.com/cosmos/cosmos-sdk/x/distribution/types"
 	govv1 "github.com/cosmos/cosmos-sdk/x/gov/types/v1"
 	stakingtypes "github.com/cosmos/cosmos-sdk/x/staking/types"
+	"github.com/ethereum/go-ethereum/common"
+	"github.com/ethereum/go-ethereum/crypto"
+	"github.com/evmos/ethermint/crypto/ethsecp256k1"
 	"pgregory.net/rapid"
 
 	"github.com/functionx/fx-core/v8/contract"
 	fxtypes "github.com/functionx/fx-core/v8/types"
 	crosschaintypes "github.com/functionx/fx-core/v8/x/crosschain/types"
+	erc20types "github.com/functionx/fx-core/v8/x/erc20/types"
 	fxevmtypes "github.com/functionx/fx-core/v8/x/evm/types"
 	fxgovtypes "github.com/functionx/fx-core/v8/x/gov/types"
+	migratetypes "github.com/functionx/fx-core/v8/x/migrate/types"
+	stakingprecompile "github.com/functionx/fx-core/v8/x/staking/types"
 
 	"verif/harness/ev"
 	"verif/harness/sim"
@@ -56,7 +69,7 @@ func genC07(t *rapid.T) c07Case {
 		max = 90
 	}
 	n := rapid.IntRange(8, max).Draw(t, "n")
-	kinds := []string{"block", "block", "block", "block", "block", "block", "deposit", "send", "batch", "bridgecall", "bridgecall", "confirm", "confirm", "proposal", "vote", "govoracles", "adddelegate", "unbond", "delegate", "absent"}
+	kinds := []string{"block", "block", "block", "block", "block", "block", "deposit", "send", "batch", "bridgecall", "bridgecall", "confirm", "confirm", "proposal", "vote", "govoracles", "adddelegate", "unbond", "delegate", "absent", "convert", "ethtx", "ethtx", "cosmostx", "valvote", "migrate"}
 	for i := 0; i < n; i++ {
 		c.Ops = append(c.Ops, c07Op{Kind: rapid.SampledFrom(kinds).Draw(t, "kind"), Chain: rapid.IntRange(0, 1).Draw(t, "chain"), U: rapid.IntRange(0, 2).Draw(t, "u"),
 			O: rapid.IntRange(0, 3).Draw(t, "o"), Tok: rapid.IntRange(0, 2).Draw(t, "tok"), Amt: rapid.Int64Range(1, 3000).Draw(t, "amt"), What: rapid.IntRange(0, 9).Draw(t, "what"),
@@ -65,20 +78,48 @@ func genC07(t *rapid.T) c07Case {
 	return c
 }
 
-func runC07(c c07Case, rec *ev.Recorder) *Failure {
+func runC07(c c07Case, rec *ev.Recorder) *Failure { return execC07(c, rec, nil) }
+
+// execC07 interprets a history on a fresh chain. rec may be nil (replica runs of C17); tr, when not
+// nil, collects everything an observer of the chain can see: the outcome and events of every
+// operation applied to the block being built, and per block the application hash, the transaction
+// results and the event list of FinalizeBlock.
+func execC07(c c07Case, rec *ev.Recorder, tr *c07Trace) *Failure {
 	chains := []string{"eth", "tron"}[:c.NumChains]
 	f := sim.NewFixture(sim.FixtureOptions{Chains: chains, Tokens: true, NumUsers: 3, OraclesPerChain: c.NumOracles})
 	gov := sim.GovAddr.String()
 	ctx := func() sdk.Context { return f.Ctx }
+	run := func(m sdk.Msg) sim.Result {
+		r := f.RunMsg(ctx(), m)
+		tr.msg(m, r)
+		return r
+	}
+	var pendingTxs [][]byte
+	seqDelta := map[string]uint64{}
+	next := func(dt time.Duration) error {
+		res, err := f.NextBlock(pendingTxs, dt)
+		pendingTxs, seqDelta = nil, map[string]uint64{}
+		tr.block(f, res, err)
+		return err
+	}
+	observe := func(ch string, claim crosschaintypes.ExternalClaim, h uint64) (uint64, error) {
+		n, err := f.Observe(ctx(), ch, claim, h)
+		tr.note(fmt.Sprintf("observe %s %T -> %d %v", ch, claim, n, err))
+		return n, err
+	}
+	execClaim := func(caller sim.Key, ch string, n uint64) {
+		r := f.ExecuteClaim(ctx(), caller, ch, n)
+		tr.eth("executeClaim", r)
+	}
 	for _, ch := range chains {
 		p := f.Keeper(ch).GetParams(ctx())
 		p.SignedWindow = c.SignedWindow
-		if r := f.RunMsg(ctx(), &crosschaintypes.MsgUpdateParams{ChainName: ch, Authority: gov, Params: p}); !r.OK() {
+		if r := run(&crosschaintypes.MsgUpdateParams{ChainName: ch, Authority: gov, Params: p}); !r.OK() {
 			return failf("harness", "params: %v", r.Err)
 		}
 	}
 	// user 0 carries the governance voting power
-	if r := f.RunMsg(ctx(), stakingtypes.NewMsgDelegate(f.Users[0].Acc().String(), f.ValKeys[0].Val().String(), sim.FxCoin(50_000))); !r.OK() {
+	if r := run(stakingtypes.NewMsgDelegate(f.Users[0].Acc().String(), f.ValKeys[0].Val().String(), sim.FxCoin(50_000))); !r.OK() {
 		return failf("harness", "delegate: %v", r.Err)
 	}
 	extH := map[string]uint64{}
@@ -89,13 +130,21 @@ func runC07(c c07Case, rec *ev.Recorder) *Failure {
 	for _, ch := range chains {
 		for i, uu := range f.Users {
 			claim := &crosschaintypes.MsgSendToFxClaim{TokenContract: f.Token("USDT").Contracts[ch], Amount: sdkmath.NewInt(1_000_000), Sender: sim.ExtAddrN(ch, "ext", i), Receiver: uu.Acc().String()}
-			n, err := f.Observe(ctx(), ch, claim, extH[ch])
+			n, err := observe(ch, claim, extH[ch])
 			if err != nil {
 				return failf("harness", "initial deposit: %v", err)
 			}
-			f.ExecuteClaim(ctx(), f.Users[1], ch, n)
+			execClaim(f.Users[1], ch, n)
 		}
 	}
+	// every user holds some of the bridged token as ERC-20 and has approved the crosschain precompile
+	for _, uu := range f.Users {
+		run(&erc20types.MsgConvertCoin{Coin: sdk.NewCoin(f.Token("USDT").Base, sdkmath.NewInt(300_000)), Receiver: uu.Hex().String(), Sender: uu.Acc().String()})
+		data, _ := contract.GetFIP20().ABI.Pack("approve", sim.CrosschainAddr, new(big.Int).Lsh(big.NewInt(1), 200))
+		erc20Addr := f.Token("USDT").ERC20
+		tr.eth("approve", f.EthTx(ctx(), uu, &erc20Addr, nil, data, 500_000))
+	}
+	migrated := map[int]bool{}
 	labels := map[string]bool{}
 	var proposals []uint64
 	blocks := 0
@@ -160,7 +209,7 @@ func runC07(c c07Case, rec *ev.Recorder) *Failure {
 			checkAged()
 			before := len(proposals)
 			_ = before
-			if _, err := f.NextBlock(nil, c07Dts[op.Dt%len(c07Dts)]); err != nil {
+			if err := next(c07Dts[op.Dt%len(c07Dts)]); err != nil {
 				site := panicSite(err.Error())
 				return failf("C07/block-halts/"+site, "%s: block %d cannot be processed: %v\nhistory so far: %s", desc, f.Height+1, trimErr(err), c07History(c.Ops[:si+1]))
 			}
@@ -174,19 +223,19 @@ func runC07(c c07Case, rec *ev.Recorder) *Failure {
 		case "deposit":
 			extH[ch] += uint64(op.What)
 			claim := &crosschaintypes.MsgSendToFxClaim{TokenContract: usdt.Contracts[ch], Amount: sdkmath.NewInt(op.Amt * 1000), Sender: sim.ExtAddrN(ch, "ext", 1), Receiver: u.Acc().String()}
-			if n, err := f.Observe(ctx(), ch, claim, extH[ch]); err == nil {
-				f.ExecuteClaim(ctx(), f.Users[1], ch, n)
+			if n, err := observe(ch, claim, extH[ch]); err == nil {
+				execClaim(f.Users[1], ch, n)
 				labels["deposit"] = true
 			}
 		case "send":
-			f.RunMsg(ctx(), &crosschaintypes.MsgSendToExternal{ChainName: ch, Sender: u.Acc().String(), Dest: sim.ExtAddrN(ch, "dest", 1), Amount: sdk.NewCoin(tok.Base, sdkmath.NewInt(op.Amt)), BridgeFee: sdk.NewCoin(tok.Base, sdkmath.NewInt(int64(1+op.What)))})
+			run(&crosschaintypes.MsgSendToExternal{ChainName: ch, Sender: u.Acc().String(), Dest: sim.ExtAddrN(ch, "dest", 1), Amount: sdk.NewCoin(tok.Base, sdkmath.NewInt(op.Amt)), BridgeFee: sdk.NewCoin(tok.Base, sdkmath.NewInt(int64(1+op.What)))})
 		case "batch":
-			f.RunMsg(ctx(), &crosschaintypes.MsgSendToExternal{ChainName: ch, Sender: u.Acc().String(), Dest: sim.ExtAddrN(ch, "dest", 2), Amount: sdk.NewCoin(tok.Base, sdkmath.NewInt(op.Amt)), BridgeFee: sdk.NewCoin(tok.Base, sdkmath.NewInt(int64(100+si)))})
-			if r := f.RunMsg(ctx(), &crosschaintypes.MsgRequestBatch{ChainName: ch, Sender: keys[0].Bridger.Acc().String(), Denom: tok.Bridge[ch], MinimumFee: sdkmath.NewInt(1), FeeReceive: sim.ExtAddrN(ch, "feercv", 1), BaseFee: sdkmath.ZeroInt()}); r.OK() {
+			run(&crosschaintypes.MsgSendToExternal{ChainName: ch, Sender: u.Acc().String(), Dest: sim.ExtAddrN(ch, "dest", 2), Amount: sdk.NewCoin(tok.Base, sdkmath.NewInt(op.Amt)), BridgeFee: sdk.NewCoin(tok.Base, sdkmath.NewInt(int64(100+si)))})
+			if r := run(&crosschaintypes.MsgRequestBatch{ChainName: ch, Sender: keys[0].Bridger.Acc().String(), Denom: tok.Bridge[ch], MinimumFee: sdkmath.NewInt(1), FeeReceive: sim.ExtAddrN(ch, "feercv", 1), BaseFee: sdkmath.ZeroInt()}); r.OK() {
 				labels["batch"] = true
 			}
 		case "bridgecall":
-			if r := f.RunMsg(ctx(), &crosschaintypes.MsgBridgeCall{ChainName: ch, Sender: u.Acc().String(), Refund: u.Acc().String(), To: sim.ExtAddrN(ch, "to", 1), Coins: sdk.NewCoins(sdk.NewCoin(usdt.Base, sdkmath.NewInt(op.Amt))), Data: "01", Value: sdkmath.ZeroInt()}); r.OK() {
+			if r := run(&crosschaintypes.MsgBridgeCall{ChainName: ch, Sender: u.Acc().String(), Refund: u.Acc().String(), To: sim.ExtAddrN(ch, "to", 1), Coins: sdk.NewCoins(sdk.NewCoin(usdt.Base, sdkmath.NewInt(op.Amt))), Data: "01", Value: sdkmath.ZeroInt()}); r.OK() {
 				labels["bridgecall"] = true
 			}
 		case "confirm":
@@ -195,7 +244,7 @@ func runC07(c c07Case, rec *ev.Recorder) *Failure {
 			if op.What <= 3 {
 				k.IterateOracleSets(ctx(), false, func(os *crosschaintypes.OracleSet) bool {
 					if m := f.OracleSetConfirmMsg(ctx(), ch, ok, os); m != nil {
-						f.RunMsg(ctx(), m)
+						run(m)
 					}
 					return false
 				})
@@ -203,14 +252,14 @@ func runC07(c c07Case, rec *ev.Recorder) *Failure {
 			if op.What <= 2 || op.What == 4 {
 				for _, b := range k.GetOutgoingTxBatches(ctx()) {
 					if m := f.BatchConfirmMsg(ctx(), ch, ok, b); m != nil {
-						f.RunMsg(ctx(), m)
+						run(m)
 					}
 				}
 			}
 			if op.What <= 2 || op.What == 5 {
 				k.IterateOutgoingBridgeCalls(ctx(), func(oc *crosschaintypes.OutgoingBridgeCall) bool {
 					if m := f.BridgeCallConfirmMsg(ctx(), ch, ok, oc); m != nil {
-						f.RunMsg(ctx(), m)
+						run(m)
 					}
 					return false
 				})
@@ -259,12 +308,12 @@ func runC07(c c07Case, rec *ev.Recorder) *Failure {
 			if err != nil {
 				return failf("harness", "proposal: %v", err)
 			}
-			if r := f.RunMsg(ctx(), m); r.OK() {
+			if r := run(m); r.OK() {
 				id, _ := f.App.GovKeeper.ProposalID.Peek(ctx())
 				proposals = append(proposals, id-1)
 				labels["proposal"] = true
 				if op.Mask&3 != 0 { // mostly voted through right away by the account holding the voting power
-					f.RunMsg(ctx(), govv1.NewMsgVote(f.Users[0].Acc(), id-1, govv1.OptionYes, ""))
+					run(govv1.NewMsgVote(f.Users[0].Acc(), id-1, govv1.OptionYes, ""))
 				}
 			}
 		case "vote":
@@ -273,7 +322,7 @@ func runC07(c c07Case, rec *ev.Recorder) *Failure {
 			}
 			id := proposals[op.What%len(proposals)]
 			opt := []govv1.VoteOption{govv1.OptionYes, govv1.OptionYes, govv1.OptionNo, govv1.OptionNoWithVeto, govv1.OptionAbstain}[op.Amt%5]
-			f.RunMsg(ctx(), govv1.NewMsgVote(f.Users[0].Acc(), id, opt, ""))
+			run(govv1.NewMsgVote(f.Users[0].Acc(), id, opt, ""))
 		case "govoracles":
 			var list []string
 			for i, kk := range keys {
@@ -282,14 +331,87 @@ func runC07(c c07Case, rec *ev.Recorder) *Failure {
 				}
 			}
 			if len(list) > 0 {
-				f.RunMsg(ctx(), &crosschaintypes.MsgUpdateChainOracles{ChainName: ch, Authority: gov, Oracles: list})
+				run(&crosschaintypes.MsgUpdateChainOracles{ChainName: ch, Authority: gov, Oracles: list})
 			}
 		case "adddelegate":
-			f.RunMsg(ctx(), &crosschaintypes.MsgAddDelegate{ChainName: ch, OracleAddress: keys[op.O%len(keys)].Oracle.Acc().String(), Amount: sim.FxCoin(op.Amt)})
+			run(&crosschaintypes.MsgAddDelegate{ChainName: ch, OracleAddress: keys[op.O%len(keys)].Oracle.Acc().String(), Amount: sim.FxCoin(op.Amt)})
 		case "unbond":
-			f.RunMsg(ctx(), &crosschaintypes.MsgUnbondedOracle{ChainName: ch, OracleAddress: keys[op.O%len(keys)].Oracle.Acc().String()})
+			run(&crosschaintypes.MsgUnbondedOracle{ChainName: ch, OracleAddress: keys[op.O%len(keys)].Oracle.Acc().String()})
 		case "delegate":
-			f.RunMsg(ctx(), stakingtypes.NewMsgDelegate(u.Acc().String(), f.ValKeys[op.O%len(f.ValKeys)].Val().String(), sim.FxCoin(op.Amt)))
+			run(stakingtypes.NewMsgDelegate(u.Acc().String(), f.ValKeys[op.O%len(f.ValKeys)].Val().String(), sim.FxCoin(op.Amt)))
+		case "convert":
+			if op.What%2 == 0 {
+				run(&erc20types.MsgConvertCoin{Coin: sdk.NewCoin(tok.Base, sdkmath.NewInt(op.Amt)), Receiver: u.Hex().String(), Sender: u.Acc().String()})
+			} else {
+				run(&erc20types.MsgConvertERC20{ContractAddress: tok.ERC20.String(), Amount: sdkmath.NewInt(op.Amt), Receiver: u.Acc().String(), Sender: u.Hex().String()})
+			}
+			labels["convert"] = true
+		case "ethtx":
+			// a signed EVM transaction for the next block: precompile calls and a plain token transfer
+			var to common.Address
+			var data []byte
+			var value *big.Int
+			switch op.What % 4 {
+			case 0:
+				to = sim.CrosschainAddr
+				data, _ = crosschaintypes.GetABI().Pack("crossChain", usdt.ERC20, sim.ExtAddrN(ch, "dest", 3), big.NewInt(op.Amt), big.NewInt(1), fxtypes.MustStrToByte32(ch), "")
+			case 1:
+				to = sim.StakingAddr
+				data, _ = stakingprecompile.GetABI().Pack("delegateV2", f.ValKeys[op.O%len(f.ValKeys)].Val().String(), sim.Fx(op.Amt).BigInt())
+			case 2:
+				to = usdt.ERC20
+				data, _ = contract.GetFIP20().ABI.Pack("transfer", f.Users[(op.U+1)%len(f.Users)].Hex(), big.NewInt(op.Amt))
+			default:
+				to = sim.CrosschainAddr
+				value = big.NewInt(op.Amt + 1)
+				data, _ = crosschaintypes.GetABI().Pack("crossChain", common.Address{}, sim.ExtAddrN(chains[0], "dest", 4), big.NewInt(op.Amt), big.NewInt(1), fxtypes.MustStrToByte32(chains[0]), "")
+			}
+			if txb, err := f.SignEthTx(ctx(), u, &to, value, data, 3_000_000, seqDelta[u.Acc().String()]); err == nil {
+				pendingTxs = append(pendingTxs, txb)
+				seqDelta[u.Acc().String()]++
+				labels["evm-tx-in-block"] = true
+			}
+		case "cosmostx":
+			var m sdk.Msg = banktypes.NewMsgSend(u.Acc(), f.Users[(op.U+1)%len(f.Users)].Acc(), sdk.NewCoins(sim.FxCoin(op.Amt)))
+			if op.What%2 == 1 {
+				m = &crosschaintypes.MsgSendToExternal{ChainName: ch, Sender: u.Acc().String(), Dest: sim.ExtAddrN(ch, "dest", 5), Amount: sdk.NewCoin(tok.Base, sdkmath.NewInt(op.Amt)), BridgeFee: sdk.NewCoin(tok.Base, sdkmath.NewInt(2))}
+			}
+			if txb, err := f.SignTx(ctx(), sim.TxSpec{Msgs: []sdk.Msg{m}, Signers: []sim.Key{u}, Gas: 2_000_000, Fee: sim.DefaultFee(2_000_000), SeqDelta: map[string]uint64{u.Acc().String(): seqDelta[u.Acc().String()]}}); err == nil {
+				pendingTxs = append(pendingTxs, txb)
+				seqDelta[u.Acc().String()]++
+				labels["cosmos-tx-in-block"] = true
+			}
+		case "valvote":
+			if len(proposals) == 0 {
+				break
+			}
+			id := proposals[op.What%len(proposals)]
+			opt := []govv1.VoteOption{govv1.OptionYes, govv1.OptionYes, govv1.OptionNo, govv1.OptionNoWithVeto, govv1.OptionAbstain}[op.Amt%5]
+			if run(govv1.NewMsgVote(f.ValKeys[op.O%len(f.ValKeys)].Acc(), id, opt, "")).OK() {
+				labels["validator-vote"] = true
+			}
+		case "migrate":
+			i := op.What % 3
+			if migrated[i] {
+				break
+			}
+			from, to := sim.CosmosKey("c07-legacy", i), sim.EthKey("c07-new", i)
+			f.Mint(ctx(), from.Acc(), sim.FxCoin(1000))
+			if acc := f.App.AccountKeeper.GetAccount(ctx(), from.Acc()); acc != nil && acc.GetPubKey() == nil {
+				_ = acc.SetPubKey(from.Pub()) // as after the account's first transaction
+				f.App.AccountKeeper.SetAccount(ctx(), acc)
+			}
+			run(stakingtypes.NewMsgDelegate(from.Acc().String(), f.ValKeys[op.O%len(f.ValKeys)].Val().String(), sim.FxCoin(100+op.Amt%50)))
+			if op.Amt%2 == 0 {
+				run(stakingtypes.NewMsgUndelegate(from.Acc().String(), f.ValKeys[op.O%len(f.ValKeys)].Val().String(), sim.FxCoin(10)))
+			}
+			ek := to.Priv.(*ethsecp256k1.PrivKey)
+			ecdsaKey, _ := ek.ToECDSA()
+			sig, _ := crypto.Sign(migratetypes.MigrateAccountSignatureHash(from.Acc(), to.Hex().Bytes()), ecdsaKey)
+			if run(&migratetypes.MsgMigrateAccount{From: from.Acc().String(), To: to.Hex().String(), Signature: hex.EncodeToString(sig)}).OK() {
+				migrated[i] = true
+				labels["migrate"] = true
+			}
 		case "absent":
 			if op.O%len(f.ValKeys) != 0 { // never the proposer
 				f.Absent[op.O%len(f.ValKeys)] = op.What%2 == 0
@@ -299,7 +421,7 @@ func runC07(c c07Case, rec *ev.Recorder) *Failure {
 	// a few more blocks so that everything queued so far reaches its end blocker
 	for i := 0; i < int(c.SignedWindow)+1; i++ {
 		checkAged()
-		if _, err := f.NextBlock(nil, 5*time.Second); err != nil {
+		if err := next(5 * time.Second); err != nil {
 			return failf("C07/block-halts/"+panicSite(err.Error()), "closing block %d cannot be processed: %v\nhistory: %s", f.Height+1, trimErr(err), c07History(c.Ops))
 		}
 		blocks++
@@ -310,6 +432,12 @@ func runC07(c c07Case, rec *ev.Recorder) *Failure {
 		ls = append(ls, l)
 	}
 	sortStrings(ls)
+	if tr != nil {
+		tr.Labels = ls
+	}
+	if rec == nil {
+		return nil
+	}
 	rec.Label("blocks", blocks)
 	rec.Case(ev.Sig(c.NumOracles, c.NumChains, c.SignedWindow, c07History(c.Ops)), nontrivial, ls...)
 	if nontrivial && rec.WantSample() {
@@ -350,3 +478,94 @@ func init() { registerReplay("C07", runC07) }
 func TestC07(t *testing.T) { drive(t, "C07", genC07, runC07) }
 
 var _ = fxtypes.DefaultDenom
+
+// c07Trace is what an observer sees of one execution of a history.
+type c07Trace struct {
+	Ops    []string        `json:"ops"`
+	Blocks []c07BlockTrace `json:"blocks"`
+	Labels []string        `json:"labels"`
+}
+
+type c07BlockTrace struct {
+	Height    int64    `json:"height"`
+	Err       string   `json:"err,omitempty"`
+	AppHash   string   `json:"app_hash"`
+	RespHash  string   `json:"response_hash"`
+	TxResults []string `json:"tx_results"`
+	Events    []string `json:"events"`
+}
+
+func eventStrings(evs []abci.Event) []string {
+	out := make([]string, 0, len(evs))
+	for _, e := range evs {
+		var sb strings.Builder
+		sb.WriteString(e.Type)
+		for _, a := range e.Attributes {
+			fmt.Fprintf(&sb, " %s=%s", a.Key, strconv.QuoteToASCII(a.Value)) // attribute values may be raw bytes
+		}
+		out = append(out, sb.String())
+	}
+	return out
+}
+
+func (t *c07Trace) note(s string) {
+	if t != nil {
+		t.Ops = append(t.Ops, s)
+	}
+}
+
+func (t *c07Trace) msg(m sdk.Msg, r sim.Result) {
+	if t == nil {
+		return
+	}
+	line := sdk.MsgTypeURL(m)
+	if r.Err != nil {
+		line += " ERR " + strconv.QuoteToASCII(r.Err.Error())
+	}
+	if r.Panic != "" {
+		line += " PANIC"
+	}
+	if r.Resp != nil {
+		line += " | " + strings.Join(eventStrings(r.Resp.Events), " ; ") + fmt.Sprintf(" | data=%x", r.Resp.Data)
+	}
+	t.Ops = append(t.Ops, line)
+}
+
+func (t *c07Trace) eth(what string, r sim.EthTxResult) {
+	if t == nil {
+		return
+	}
+	line := what
+	if r.Err != nil {
+		line += " ERR " + r.Err.Error()
+	}
+	if r.Resp != nil {
+		line += fmt.Sprintf(" hash=%s gas=%d vmerr=%q ret=%x logs=%d", r.Resp.Hash, r.Resp.GasUsed, r.Resp.VmError, r.Resp.Ret, len(r.Resp.Logs))
+		for _, l := range r.Resp.Logs {
+			line += fmt.Sprintf(" log[%s %v %x]", l.Address, l.Topics, l.Data)
+		}
+	}
+	t.Ops = append(t.Ops, line)
+}
+
+func (t *c07Trace) block(f *sim.Fixture, res *abci.ResponseFinalizeBlock, err error) {
+	if t == nil {
+		return
+	}
+	b := c07BlockTrace{Height: f.Height}
+	if err != nil {
+		b.Err = panicSite(err.Error())
+		t.Blocks = append(t.Blocks, b)
+		return
+	}
+	b.AppHash = hex.EncodeToString(res.AppHash)
+	if bz, merr := res.Marshal(); merr == nil {
+		h := sha256.Sum256(bz)
+		b.RespHash = hex.EncodeToString(h[:])
+	}
+	for _, tx := range res.TxResults {
+		b.TxResults = append(b.TxResults, fmt.Sprintf("code=%d codespace=%s gas=%d/%d data=%x log=%s | %s", tx.Code, tx.Codespace, tx.GasUsed, tx.GasWanted, tx.Data, strconv.QuoteToASCII(tx.Log), strings.Join(eventStrings(tx.Events), " ; ")))
+	}
+	b.Events = eventStrings(res.Events)
+	t.Blocks = append(t.Blocks, b)
+}
